@@ -74,28 +74,30 @@ theorem namelist_len_bound (codes : List Bytes) : LenBound (nameListCodec codes)
 theorem namelist_positive (codes : List Bytes) : Positive (nameListCodec codes) := nameList_positive codes
 theorem namelist_no_crash (codes : List Bytes) : NoCrash (nameListCodec codes) := nameList_noCrash codes
 
-/-- FULL statement: a name-list whose declared length exceeds the data is not accepted -/
-def namelist_rejects_truncation_full : Prop :=
-  ∀ (codes : List Bytes) (bs : Bytes) (v : List Name) (n : Nat),
-    parseNameList codes bs = .ok (v, n) → 4 + beVal (bs.take 4) ≤ bs.length
-
-/-- it is false: `00 00 00 10 'abc'` (16 bytes declared, 3 present) is accepted as `['abc']`, n = 7 -/
-theorem namelist_rejects_truncation_full_fails : ¬ namelist_rejects_truncation_full := by
-  intro h
-  have hp : parseNameList [] [0, 0, 0, 0x10, 0x61, 0x62, 0x63] = .ok ([.other [0x61, 0x62, 0x63]], 7) := by
-    decide +kernel
-  have := h _ _ _ _ hp
-  exact absurd this (by decide)
-
-/-- what does hold: an accepted name-list consumed the 4-byte header plus the declared length or
-whatever was left of the buffer, whichever is less -/
-theorem namelist_consumed_partial (codes : List Bytes) (bs : Bytes) (v : List Name) (n : Nat)
+/-- FULL statement (it was false before the repair of `SshNameListBase._parse`): a name-list whose
+declared length exceeds the data is never accepted; an accepted one consumed exactly the 4-byte
+header plus the declared length, and its body does not end in a comma -/
+theorem namelist_rejects_truncation (codes : List Bytes) (bs : Bytes) (v : List Name) (n : Nat)
     (h : parseNameList codes bs = .ok (v, n)) :
-    4 ≤ bs.length ∧ n = 4 + min (beVal (bs.take 4)) (bs.length - 4) := by
-  obtain ⟨h4, h | ⟨_, _, _, _, hn⟩⟩ := parseNameList_ok_inv h
-  · exact ⟨h4, by omega⟩
-  · refine ⟨h4, ?_⟩
-    rw [hn]; simp
+    4 + beVal (bs.take 4) ≤ bs.length ∧ n = 4 + beVal (bs.take 4) ∧
+      ((bs.drop 4).take (beVal (bs.take 4))).getLast? ≠ some comma := by
+  obtain ⟨body, _, hb, _⟩ := parseNameList_ok_inv h
+  obtain ⟨_, h2, h3, _, h5, h6⟩ := nameListBody_ok_inv hb
+  exact ⟨h2, h5, h3 ▸ h6⟩
+
+/-- an accepted name-list is exactly its names joined by commas: the wire string is recovered from
+the parsed value (no trailing comma, nothing dropped) -/
+theorem namelist_value_is_wire_string (codes : List Bytes) (bs : Bytes) (v : List Name) (n : Nat)
+    (h : parseNameList codes bs = .ok (v, n)) :
+    ∃ items, nameTexts codes v = .ok items ∧ Spec.Ssh.takeString bs = some (joinItems comma items, bs.drop n) := by
+  obtain ⟨body, items, hb, ht, _, hj⟩ := parseNameList_ok_inv h
+  exact ⟨items, ht, hj ▸ nameListBody_complete hb⟩
+
+/-- every proper prefix of an RFC 4251 `string` is `NotEnoughData(m)` with `1 ≤ m ≤` really missing,
+at the name-list header (C04 for name-lists; false before the repair) -/
+theorem namelist_prefix_reject (body : Bytes) (hl : body.length < 2 ^ 32) (j : Nat) (hj : j < 4 + body.length) :
+    ∃ m : Nat, nameListBody ((Spec.Ssh.string body).take j) = .error (.notEnough m) ∧ 1 ≤ m ∧
+      m ≤ 4 + body.length - j := nameListBody_prefix body hl j hj
 
 /-! ### c. the binary packet, around any message codec -/
 
@@ -113,7 +115,7 @@ theorem packet_roundtrip {α : Type} (m : Codec α) (wf : α → Prop) (hm : Rou
     RoundTrip (recordCodec m) (fun v => wf v ∧ ∀ b, m.compose v = .ok b → b.length + 12 < 2 ^ 32) :=
   record_roundTrip hm
 
-theorem packet_len_bound {α : Type} (m : Codec α) (hm : LenBound m) : LenBound (recordCodec m) := record_lenBound hm
+theorem packet_len_bound {α : Type} (m : Codec α) : LenBound (recordCodec m) := record_lenBound m
 theorem packet_positive {α : Type} (m : Codec α) : Positive (recordCodec m) := record_positive m
 theorem packet_no_crash {α : Type} (m : Codec α) (hm : NoCrash m) : NoCrash (recordCodec m) := record_noCrash hm
 
@@ -142,58 +144,40 @@ theorem ssh_init_no_crash :
     (∀ codes, NoCrash (nameListCodec codes)) ∧ NoCrash kexInitCodec ∧ NoCrash recordInit :=
   ⟨nameList_noCrash, kexInit_noCrash, recordInit_noCrash⟩
 
-/-- FULL statement (C02 for the key-exchange packets) -/
-def record_kexdh_no_crash_full : Prop := NoCrash recordKexDH
+/-- FULL statement (C03 for the packet; false before the repair of `SshRecordBase._parse`): the packet
+is self-delimiting — for EVERY message codec, the message parser being confined to the payload -/
+theorem packet_self_delimiting {α : Type} (m : Codec α) : SelfDelim (recordCodec m) := record_selfDelim m
 
-/-- false: a KEXDH_REPLY whose host key is `ecdsa-sha2-nistp256` with a compressed point (`03 …`)
-escapes as asn1crypto's `ValueError` -/
-theorem record_kexdh_no_crash_full_fails : ¬ record_kexdh_no_crash_full := by
-  intro h
-  have hp : recordKexDH.parse
-      [0, 0, 0, 55, 0, 31, 0, 0, 0, 41, 0, 0, 0, 19, 101, 99, 100, 115, 97, 45, 115, 104, 97, 50, 45, 110, 105, 115,
-       116, 112, 50, 53, 54, 0, 0, 0, 8, 110, 105, 115, 116, 112, 50, 53, 54, 0, 0, 0, 2, 3, 1, 0, 0, 0, 0, 0, 0, 0, 0] =
-      .error (.crash "ValueError") := by decide +kernel
-  exact h _ _ hp
+/-- FULL statement (false before the repair): the consumed length is `4 + packet_length`, within the
+buffer and at least 5 -/
+theorem packet_consumes_declared {α : Type} (m : Codec α) (b : Bytes) (v : α) (n : Nat)
+    (h : (recordCodec m).parse b = .ok (v, n)) : n = 4 + declaredLength b ∧ n ≤ b.length ∧ 5 ≤ n :=
+  record_consumes_declared m b v n h
 
-/-- FULL statement (C03 for the packet): the packet is self-delimiting -/
-def packet_self_delimiting_full : Prop := SelfDelim recordInit
+/-- the three record classes of the code are self-delimiting and consume `4 + packet_length` -/
+theorem records_self_delimiting :
+    SelfDelim recordInit ∧ SelfDelim recordKexDH ∧ SelfDelim recordKexDHGroup ∧
+    (∀ b v n, recordInit.parse b = .ok (v, n) → n = 4 + declaredLength b) ∧
+    (∀ b v n, recordKexDH.parse b = .ok (v, n) → n = 4 + declaredLength b) ∧
+    (∀ b v n, recordKexDHGroup.parse b = .ok (v, n) → n = 4 + declaredLength b) :=
+  ⟨record_selfDelim _, record_selfDelim _, record_selfDelim _,
+    fun b v n h => (record_consumes_declared _ b v n h).1, fun b v n h => (record_consumes_declared _ b v n h).1,
+    fun b v n h => (record_consumes_declared _ b v n h).1⟩
 
-/-- FULL statement: the consumed length is `4 + packet_length` -/
-def packet_consumes_declared_full : Prop :=
-  ∀ b v n, recordInit.parse b = .ok (v, n) → n = 4 + declaredLength b
-
-/-- false: `packet_length` 2, but the UNIMPLEMENTED message inside is five bytes long → n = 10, not 6;
-and `packet_length` 12 with `padding_length` 200 → n = 210, not 16 -/
-theorem packet_consumes_declared_full_fails : ¬ packet_consumes_declared_full := by
-  intro h
-  have hp : recordInit.parse [0, 0, 0, 2, 0, 3, 0, 0, 0, 1] = .ok (.unimplemented 1, 10) := by decide +kernel
-  have := h _ _ _ hp
-  exact absurd this (by decide)
-
-theorem packet_padding_200_witness :
-    recordInit.parse ([0, 0, 0, 12, 200, 3, 0, 0, 0, 1] ++ List.replicate 200 0) = .ok (.unimplemented 1, 210) := by
+/-- the former counter-examples: inner lengths that disagree with the header are an invalid value -/
+theorem packet_inconsistent_lengths_rejected :
+    recordInit.parse [0, 0, 0, 2, 0, 3, 0, 0, 0, 1] = .error .invalidValue ∧
+    recordInit.parse ([0, 0, 0, 12, 200, 3, 0, 0, 0, 1] ++ List.replicate 200 0) = .error .invalidValue ∧
+    recordInit.parse ([0, 0, 0, 34, 0, 3, 0, 0, 0, 1] ++ List.replicate 28 0) = .error .invalidValue ∧
+    recordInit.parse [0, 0, 0, 6, 0, 3, 0, 0, 0, 1] = .ok (.unimplemented 1, 10) := by
   decide +kernel
 
-/-- false: `packet_length` 34 on a 38-byte buffer whose message is five bytes long and whose
-`padding_length` is 0 is accepted with n = 10; its first 10 bytes alone are `NotEnoughData(28)` -/
-theorem packet_self_delimiting_full_fails : ¬ packet_self_delimiting_full := by
-  intro h
-  have h3 : recordInit.parse ([0, 0, 0, 34, 0, 3, 0, 0, 0, 1] ++ List.replicate 28 0) =
-      .ok (.unimplemented 1, 10) := by decide +kernel
-  have h4 := h _ _ _ h3 []
-  have h5 : recordInit.parse ((([0, 0, 0, 34, 0, 3, 0, 0, 0, 1] ++ List.replicate 28 0 : Bytes)).take 10 ++ []) =
-      .error (.notEnough 28) := by decide +kernel
-  rw [h5] at h4
-  exact absurd h4 (by decide)
-
-/-- what self-delimitation needs, honestly: a self-delimiting message codec AND a consumed length
-that reaches the declared one.  Both can fail in the code because `SshRecordBase._parse` hands the
-whole rest of the buffer to the message parser. -/
-theorem packet_self_delimiting_partial {α : Type} (m : Codec α) (hs : SelfDelim m) (hl : LenBound m)
-    (b : Bytes) (v : α) (n : Nat) (h : (recordCodec m).parse b = .ok (v, n))
-    (hdecl : 4 + declaredLength b ≤ n) (s : Bytes) :
-    (recordCodec m).parse (b.take n ++ s) = .ok (v, n) :=
-  record_selfDelim_partial hs hl b v n h hdecl s
+/-- the former `ValueError`: a KEXDH_REPLY whose ECDSA host key has a compressed point is an invalid value -/
+theorem kexdh_reply_compressed_point_rejected :
+    recordKexDH.parse
+      [0, 0, 0, 55, 0, 31, 0, 0, 0, 41, 0, 0, 0, 19, 101, 99, 100, 115, 97, 45, 115, 104, 97, 50, 45, 110, 105, 115,
+       116, 112, 50, 53, 54, 0, 0, 0, 8, 110, 105, 115, 116, 112, 50, 53, 54, 0, 0, 0, 2, 3, 1, 0, 0, 0, 0, 0, 0, 0, 0] =
+      .error .invalidValue := by decide +kernel
 
 /-! ### d. KEXINIT -/
 
@@ -343,15 +327,50 @@ theorem cert_force_command_full_fails : ¬ cert_force_command_full := by
 
 /-! ### the identification string -/
 
+/-- the composed identification string is `SSH-protoversion-softwareversion SP comments CR LF`
+(RFC 4253 §4.2), and nothing is composed beyond the 255 bytes the RFC allows (repaired) -/
 theorem banner_compose_is_rfc (major minor : Nat) (raw : Bytes) (comment : Option Bytes) :
     composeBanner ⟨major, minor, ⟨"SshSoftwareVersionUnparsed", some raw⟩, comment⟩ =
-      .ok (Spec.Ssh.identification major minor raw comment) := banner_compose_spec major minor raw comment
+      if (Spec.Ssh.identification major minor raw comment).length ≤ 255
+      then .ok (Spec.Ssh.identification major minor raw comment)
+      else .error (.tooMuch (((Spec.Ssh.identification major minor raw comment).length - 255 : Nat) : Int)) :=
+  banner_compose_spec major minor raw comment
+
+/-- compose ∘ parse for the identification string, protocol versions 2.0 and 1.99 (the ones in
+use), an opaque software version (`SshSoftwareVersionUnparsed`: `hsw` says the text is not one a
+vendor class claims) and any comment: the composed bytes are the RFC string, at most 255 long, and
+parse back to the banner consuming exactly them — whatever follows, unless that starts with a line
+feed (`banner_self_delimiting_full_fails` below) -/
+theorem banner_roundtrip (raw : Bytes) (comment : Option Bytes) (ht : bannerTextOk raw comment = true)
+    (hsw : parseSoftwareVersion raw = .ok ⟨"SshSoftwareVersionUnparsed", some raw⟩) (s : Bytes)
+    (hs : s.head? ≠ some 0x0a) :
+    (∀ b, composeBanner ⟨2, 0, ⟨"SshSoftwareVersionUnparsed", some raw⟩, comment⟩ = .ok b →
+      b = Spec.Ssh.identification 2 0 raw comment ∧ b.length ≤ 255 ∧
+      parseBanner (b ++ s) = .ok (⟨2, 0, ⟨"SshSoftwareVersionUnparsed", some raw⟩, comment⟩, b.length)) ∧
+    (∀ b, composeBanner ⟨1, 99, ⟨"SshSoftwareVersionUnparsed", some raw⟩, comment⟩ = .ok b →
+      b = Spec.Ssh.identification 1 99 raw comment ∧ b.length ≤ 255 ∧
+      parseBanner (b ++ s) = .ok (⟨1, 99, ⟨"SshSoftwareVersionUnparsed", some raw⟩, comment⟩, b.length)) :=
+  ⟨fun b hc => banner_roundTrip_of_version 2 0 3 bannerVersion_2_0 (by decide) raw comment ht hsw b hc s hs,
+   fun b hc => banner_roundTrip_of_version 1 99 4 bannerVersion_1_99 (by decide) raw comment ht hsw b hc s hs⟩
 
 /-- C03 for the banner: an accepted identification string consumed between 1 and 255 bytes (RFC 4253
 §4.2: "The maximum length of the string is 255 characters, including the Carriage Return and Line
 Feed"), all inside the buffer -/
 theorem banner_consumed_length (bs : Bytes) (b : Banner) (n : Nat) (h : parseBanner bs = .ok (b, n)) :
     0 < n ∧ n ≤ bs.length ∧ n ≤ 255 := banner_len_bound bs b n h
+
+/-- C02 for the banner (false before the repair: `SSH-3.0-x` was a `ValueError`, `SSH-2.0-x \n` an
+`IndexError`): no exception outside the four parse errors -/
+theorem banner_no_crash : NoCrash bannerCodec := banner_noCrash
+
+theorem banner_former_crashes_rejected :
+    parseBanner [0x53, 0x53, 0x48, 0x2d, 0x33, 0x2e, 0x30, 0x2d, 0x78, 0x0d, 0x0a] = .error .invalidValue ∧
+    parseBanner [0x53, 0x53, 0x48, 0x2d, 0x32, 0x2e, 0x30, 0x2d, 0x78, 0x20, 0x0a] =
+      .ok (⟨2, 0, ⟨"SshSoftwareVersionUnparsed", some [0x78]⟩, some []⟩, 11) := by decide +kernel
+
+/-- `SshProtocolVersion` parsed on its own still raises the bare `ValueError` (pinned by the test-suite) -/
+theorem protocol_version_value_error_witness :
+    parseProtocolVersion [0x33, 0x2e, 0x30] = .error (.crash "ValueError") := by decide +kernel
 
 /-- FULL statement (C03): the identification string is self-delimiting -/
 def banner_self_delimiting_full : Prop := SelfDelim bannerCodec
@@ -368,22 +387,12 @@ theorem banner_self_delimiting_full_fails : ¬ banner_self_delimiting_full := by
   rw [h3] at h2
   exact absurd h2 (by decide)
 
-/-- FULL statement (C02 for the banner): no exception outside the four parse errors -/
-def banner_no_crash_full : Prop := NoCrash bannerCodec
-
-/-- false: `SSH-3.0-x\r\n` is a `ValueError` (bare `SshVersion(3)`), `SSH-2.0-x \n` an `IndexError`
-(`pieces[-1][-1]` on an empty string) -/
-theorem banner_no_crash_full_fails : ¬ banner_no_crash_full := by
-  intro h
-  have h1 : bannerCodec.parse [0x53, 0x53, 0x48, 0x2d, 0x33, 0x2e, 0x30, 0x2d, 0x78, 0x0d, 0x0a] =
-      .error (.crash "ValueError") := by decide +kernel
-  exact h _ _ h1
-
-theorem banner_index_error_witness :
-    parseBanner [0x53, 0x53, 0x48, 0x2d, 0x32, 0x2e, 0x30, 0x2d, 0x78, 0x20, 0x0a] = .error (.crash "IndexError") := by
-  decide +kernel
-
 /-! ### non-vacuity -/
+
+-- "OpenSSH-like" text that no vendor class claims, with a two-word comment
+example : bannerTextOk [0x78, 0x5f, 0x39] (some [0x61, 0x20, 0x62]) = true ∧
+    parseSoftwareVersion [0x78, 0x5f, 0x39] = .ok ⟨"SshSoftwareVersionUnparsed", some [0x78, 0x5f, 0x39]⟩ := by
+  decide +kernel
 
 example : padLen 0 = 11 ∧ padLen 3 = 8 ∧ padLen 7 = 4 ∧ padLen 35000 = 11 := by decide
 
